@@ -109,6 +109,10 @@ def abstract_rows(facts, body, g, raw_rows):
             hit = False
             if pe[0] == 'discr':
                 x = ir.peel(pe[1])
+                # `opt?`: the discriminant of Try::branch(opt) -- Continue (0) means Some, Break (1) means None
+                if x[0] == 'call' and x[1] == "<std::option::Option as std::ops::Try>::branch" and x[2] and isinstance(lab, tuple) and lab[0] == 'case':
+                    x = ir.peel(x[2][0])
+                    lab = ('case', 1) if lab[1] == 0 else ('case', 0)
                 if x[0] == 'call' and x[1] == FROM_BYTES:
                     d.atoms['decode'] = 'ok' if lab == ('case', 0) else 'err'
                     hit = True
@@ -132,7 +136,8 @@ def abstract_rows(facts, body, g, raw_rows):
                     hit = True
                 elif x[0] == 'call' and x[1].endswith("::get") and any(y[0] == 'agg' and y[2].startswith("std::ops::Range") for y in ir.walk(x)):
                     # `data.get(a..b)`: enough bytes buffered?
-                    rng = [y for y in ir.walk(x) if y[0] == 'agg' and y[2].startswith("std::ops::Range")][0]
+                    own = [y for y in ir.walk(x[2][1]) if y[0] == 'agg' and y[2].startswith("std::ops::Range")] if len(x[2]) > 1 else []
+                    rng = (own or [y for y in ir.walk(x) if y[0] == 'agg' and y[2].startswith("std::ops::Range")])[0]     # the range handed to this get()
                     start = ir.const_value(ir.peel(dict(rng[3]).get('start', ('const', 0, ''))))
                     which = 'have_header' if start == 0 else 'have_body'
                     d.atoms[which] = (lab == ('case', 1))
